@@ -6,6 +6,7 @@ import (
 	"fmt"
 	"os"
 	"sort"
+	"strings"
 
 	"verifharness/core"
 )
@@ -25,7 +26,7 @@ func main() {
 		usage()
 	}
 	r := core.NewRun(os.Args[1], os.Args[2:])
-	if r.Replay != "" && os.Args[1] != "probe" {
+	if r.Replay != "" && os.Args[1] != "probe" && !strings.HasSuffix(os.Args[1], "debug") {
 		replay(r)
 		return
 	}
